@@ -27,7 +27,7 @@ RULE = (
 ASSUMPTIONS = [
     "expected include_paths: the -I directories in command-line order, then the -isystem directories in command-line order; a directory given both ways may appear once (compiler search semantics, see C04)",
     "/bin/sh decides how a command string splits into words; values contain no $ or backtick (shell expansion is not part of the compilation-database format)",
-    "-fopenmp and other options the built-in compiler definitions model are left to C12",
+    "options the built-in compiler definitions model are left to C12, except -fopenmp: it appears in the random vectors and contributes exactly _OPENMP, appended, for gcc/g++/clang/clang++/icx/nvcc (read from the built-in definition files)",
     "a leading-dash value attached to -isystem/-include (-isystem-x) is not generated: that spelling collides with real options such as -isystem-after / -include-pch",
 ]
 
@@ -98,6 +98,10 @@ def observe(argv0, argv):
 
 
 IMPLICIT = {"nvcc": ["__NVCC__", "__CUDACC__"]}
+# one modelled mode flag takes part, so that the code merging a mode's contribution into the user's
+# lists runs: the built-in definitions of these compilers give -fopenmp the single define _OPENMP,
+# appended after everything else (C12 checks the definitions themselves)
+OPENMP_COMPILERS = {"gcc", "g++", "clang", "clang++", "icx", "nvcc"}
 
 
 def judge(argv0, atoms):
@@ -108,6 +112,8 @@ def judge(argv0, atoms):
         return (f"exception:{obs[1]}", exp, f"{obs[1]}: {obs[2]}")
     base = os.path.basename(argv0)
     exp_def = exp["defines"] + IMPLICIT.get(base, [])
+    if base in OPENMP_COMPILERS and any(a["kind"] == "mode" for a in atoms):
+        exp_def = exp_def + ["_OPENMP"]
     if obs["defines"] != exp_def:
         return ("defines", exp_def, obs["defines"])
     if obs["include_files"] != exp["include_files"]:
@@ -123,7 +129,7 @@ def judge(argv0, atoms):
 
 
 def atom_class(a):
-    if a["kind"] == "other":
+    if a["kind"] in ("other", "mode"):
         return " ".join(a["tokens"])
     v = a["value"]
     extra = "leading-dash" if v.startswith("-") else ("space" if " " in v else "")
@@ -213,7 +219,8 @@ def vector_strategy():
     # of other compilers (-isystem-after, -include-pch) and are left out of the domain
     dash = st.one_of(st.builds(rec, st.sampled_from(["I", "isystem", "include"]), st.sampled_from(DASH_DIRS), st.just(False)), st.builds(rec, st.just("I"), st.sampled_from(DASH_DIRS), st.just(True)))
     o = st.sampled_from(UNMODELLED).map(unm)
-    atom = st.one_of(d, d, i, i, s, f, o, o, o, o, o, st.one_of(dash, o, o, o, o, o, o, o))
+    mode = st.just({"kind": "mode", "tokens": ["-fopenmp"]})
+    atom = st.one_of(d, d, i, i, s, f, o, o, o, o, o, st.one_of(dash, o, o, o, o, o, o, o), st.one_of(mode, d, i, o))
     return st.tuples(st.sampled_from(COMPILERS), st.lists(atom, min_size=1, max_size=40))
 
 
